@@ -7,7 +7,7 @@
                           fired: per executing callback-enabled node (top-level graph = path [],
                                  sub graph nodes, components) the handlers whose OnStart fired
                                  there, sorted (with multiplicity). *)
-From Eino Require Import Base.Util Model.Options Model.OptionsSpec Model.OptionsResume Model.OptionsAll.
+From Eino Require Import Base.Util Model.Options Model.OptionsSpec Model.OptionsResume Model.OptionsAll Model.OptionsHosted.
 
 Inductive obs : Type :=
 | OErr
@@ -64,10 +64,16 @@ Definition obs_same (model o : obs) : bool :=
           (interrupt-before / rerun nodes and interrupted sub graphs are inputs of the
           checkpoint, the latter with their own nested checkpoint). What the call showed — one
           entry per node that executed in it — is compared pointwise with the model's answer
-          for all nodes. *)
+          for all nodes.
+   CaseH: like Case, but every call comes with the handlers [hh] that are already in the context it
+          is issued with (a call made from inside a lambda node of a host graph whose own call carried
+          the handlers hh; [] for a call from a fresh context): Model/OptionsHosted.v run_hosted. *)
 Inductive ccase : Type :=
 | Case (F : forest) (calls : list (call * obs))
-| CaseR (F : forest) (steps : list (option ckpt * call * obs)).
+| CaseR (F : forest) (steps : list (option ckpt * call * obs))
+| CaseH (F : forest) (calls : list (list N * call * obs)).
+
+Definition model_obs_h (F : forest) (hh : list N) (c : call) : obs := obs_of (run_hosted_call F hh c).
 
 Definition bad (c : ccase) : bool :=
   match c with
@@ -76,5 +82,9 @@ Definition bad (c : ccase) : bool :=
       negb (forallb (fun s => match s with
                               | (ck, c, o) => obs_within (model_obs_r F ck c) o
                               end) steps)
+  | CaseH F calls =>
+      negb (forallb (fun s => match s with
+                              | (hh, c, o) => obs_same (model_obs_h F hh c) o
+                              end) calls)
   end.
 Definition mismatches (cs : list ccase) : list nat := mismatches_from bad 0 cs.
